@@ -2,6 +2,7 @@ use crate::engine::{CaseResult, Tier};
 pub mod c01;
 pub mod c02;
 pub mod c03;
+pub mod c04;
 pub mod c13;
 pub mod common;
 
@@ -10,6 +11,7 @@ pub fn run(id: &str, tier: Tier, seed: u64) -> i32 {
         "C01" => c01::run(tier, seed),
         "C02" => c02::run(tier, seed),
         "C03" => c03::run(tier, seed),
+        "C04" => c04::run(tier, seed),
         "C13" => c13::run(tier, seed),
         _ => {
             eprintln!("no check for {}", id);
@@ -23,6 +25,7 @@ pub fn replay(id: &str, case: &serde_json::Value) -> CaseResult {
         "C01" => c01::replay(case),
         "C02" => c02::replay(case),
         "C03" => c03::replay(case),
+        "C04" => c04::replay(case),
         "C13" => c13::replay(case),
         _ => panic!("no check for {}", id),
     }
